@@ -983,4 +983,141 @@ theorem length_range (E : Env) (v : Val) : arrayUint32 E v = Spec.lengthOf E v :
     cases toFloat E _ <;> simp [Spec.valEqNat]
 
 
+theorem decAux_acc : ∀ (m fuel fuel' : Nat) (acc : List Nat), m < fuel → m < fuel' →
+    decAux fuel m acc = decAux fuel' m [] ++ acc := by
+  intro m
+  induction m using Nat.strongRecOn with
+  | _ m ih =>
+    intro fuel fuel' acc h1 h2
+    cases fuel with
+    | zero => omega
+    | succ f =>
+      cases fuel' with
+      | zero => omega
+      | succ f' =>
+        simp only [decAux]
+        by_cases h10 : m < 10
+        · simp [h10]
+        · simp only [h10, if_false]
+          have hlt : m / 10 < m := by omega
+          rw [ih (m / 10) hlt f f' _ (by omega) (by omega)]
+          rw [ih (m / 10) hlt f' f' [48 + m % 10] (by omega) (by omega)]
+          simp
+
+theorem dec_snoc (n : Nat) (h : n ≥ 10) : dec n = dec (n / 10) ++ [48 + n % 10] := by
+  have : ¬ n < 10 := by omega
+  simp only [dec, decAux, this, if_false]
+  exact decAux_acc (n / 10) n (n / 10 + 1) _ (by omega) (by omega)
+
+theorem dec_small (n : Nat) (h : n < 10) : dec n = [48 + n] := by
+  simp [dec, decAux, h]
+
+theorem digitsValue_snoc (r : List Nat) (c acc : Nat) :
+    Spec.digitsValue (r ++ [c]) acc =
+      (Spec.digitsValue r acc).bind (fun a => if 48 ≤ c ∧ c ≤ 57 then some (a * 10 + (c - 48)) else none) := by
+  induction r generalizing acc with
+  | nil => simp only [List.nil_append, Spec.digitsValue]; split <;> rfl
+  | cons x xs ih =>
+    simp only [List.cons_append, Spec.digitsValue]
+    split
+    · exact ih _
+    · rfl
+
+/-- a digit string without leading zero is the decimal numeral of its value -/
+theorem dec_digitsValue : ∀ (len : Nat) (s : List Nat) (n : Nat), s.length = len → s ≠ [] →
+    (∀ c r, s = c :: r → r ≠ [] → c ≠ 48) → Spec.digitsValue s 0 = some n → s = dec n ∧ (s.length ≥ 2 → n ≥ 10) := by
+  intro len
+  induction len with
+  | zero => intro s n hl hne; cases s <;> simp_all
+  | succ l ih =>
+    intro s n hl hne hlead hv
+    rcases List.eq_nil_or_concat s with h | ⟨r, c, h⟩
+    · exact absurd h hne
+    · rw [List.concat_eq_append] at h
+      subst h
+      rw [digitsValue_snoc] at hv
+      cases hr : Spec.digitsValue r 0 with
+      | none => rw [hr] at hv; simp at hv
+      | some a =>
+        rw [hr] at hv
+        simp only [Option.bind] at hv
+        by_cases hc : 48 ≤ c ∧ c ≤ 57
+        · simp only [hc, and_self, if_true] at hv
+          injection hv with hv
+          by_cases hrn : r = []
+          · subst hrn
+            simp only [Spec.digitsValue] at hr
+            injection hr with hr
+            subst hr
+            have : n < 10 := by omega
+            constructor
+            · rw [dec_small n this]; simp; omega
+            · simp
+          · have hrl : r.length = l := by simp at hl; omega
+            have hlead' : ∀ c' r', r = c' :: r' → r' ≠ [] → c' ≠ 48 := by
+              intro c' r' e hne'
+              apply hlead c' (r' ++ [c])
+              · rw [e]; rfl
+              · simp
+            obtain ⟨ih1, ih2⟩ := ih r a hrl hrn hlead' hr
+            -- the value of r is at least 1: its head is a non-zero digit or r is a single non-zero digit
+            have ha : a ≥ 1 := by
+              cases r with
+              | nil => exact absurd rfl hrn
+              | cons c' r' =>
+                by_cases hr' : r' = []
+                · subst hr'
+                  have := hlead c' [c] rfl (by simp)
+                  simp only [Spec.digitsValue] at hr
+                  split at hr
+                  · injection hr with hr; omega
+                  · cases hr
+                · have := ih2 (by cases r' with | nil => exact absurd rfl hr' | cons _ _ => simp)
+                  omega
+            have hn10 : n ≥ 10 := by omega
+            constructor
+            · rw [dec_snoc n hn10]
+              have h1 : n / 10 = a := by omega
+              have h2 : 48 + n % 10 = c := by omega
+              rw [h1, h2, ← ih1]
+            · intro _; exact hn10
+        · simp [hc] at hv
+
+
+/-- every string that §15.4 takes for an array index is the canonical numeral of that index -/
+theorem arrayIndex_canonical (s : List Nat) (n : Nat) (h : Spec.arrayIndex? s = some n) : s = dec n ∧ n < 2^32 - 1 := by
+  unfold Spec.arrayIndex? at h
+  cases s with
+  | nil => cases h
+  | cons c r =>
+    simp only at h
+    split at h
+    · cases h
+    · rename_i hlead
+      cases hv : Spec.digitsValue (c :: r) 0 with
+      | none => rw [hv] at h; cases h
+      | some m =>
+        rw [hv] at h
+        simp only at h
+        split at h
+        · injection h with h; subst h
+          refine ⟨(dec_digitsValue _ (c :: r) m rfl (by simp) ?_ hv).1, by assumption⟩
+          intro c' r' e hr'
+          injection e with e1 e2
+          subst e1; subst e2
+          intro hc; exact hlead ⟨hc, hr'⟩
+        · cases h
+
+/-- **array_index (spec ⇒ otto)**: on every string that ES5 treats as an array index, stringToArrayIndex returns
+    that index; the strings on which otto returns an index although ES5 does not are the region
+    `index_noncanonical`. -/
+theorem array_index_agrees (s : List Nat) (n : Nat) (h : Spec.arrayIndex? s = some n) :
+    stringToArrayIndexRaw s = (n : Int) := by
+  obtain ⟨hs, hn⟩ := arrayIndex_canonical s n h
+  subst hs
+  have := stringToArrayIndex_idx n
+  simp only [stringToArrayIndex, Key.toBytes, hn, if_true] at this
+  exact this
+
+
 end OttoVerif.C08.Thm
